@@ -20,7 +20,7 @@ func init() {
 	Register(&Prop{
 		ID: "C07", NoShrink: true,
 		Rule: "srv: requests with Content-Length / chunked / fixed-length multipart (pre-parsed, not pre-parsed, with Content-Encoding) bodies, with and without Expect: 100-continue, of sizes around MaxRequestBodySize L (L-1, L, L+1, 2L, chunk splits) on a real connection; srvhr: the limit raised or lowered for one request through HeaderReceived, followed by a request without override on the same connection; cli: Response.ReadLimitBody with fixed / chunked / identity bodies around L, on fresh Response objects and on objects whose body buffer was grown by an earlier larger response; " +
-			"gz: Body*WithLimit on gzip bodies whose inflated size is around L (incl. bombs); mp: MultipartFormWithLimit; head: request heads around ReadBufferSize; " +
+			"gz: Body*WithLimit on gzip bodies whose inflated size is around L (incl. bombs); zz: the same helpers on gzip / zstd bodies made of two members / frames; mp: MultipartFormWithLimit; head: request heads around ReadBufferSize; " +
 			"non-trivial = body size within [L-2, 2L]; distinct = distinct input",
 		Parallel: true,
 		Build: func(kind string, a [][]byte) *Case {
@@ -234,6 +234,57 @@ func init() {
 						}
 						return Ok()
 					}}
+			case "zz":
+				// compressed bodies made of SEVERAL members / frames (legal for gzip and zstd): a first one that inflates to
+				// `first` bytes (within the limit) followed by one that inflates to `size` bytes
+				L, first, size, coding := num(0), num(1), num(2), string(a[3])
+				p1, p2 := bytes.Repeat([]byte("a"), first), bytes.Repeat([]byte("z"), size)
+				var comp []byte
+				switch coding {
+				case "gzip":
+					comp = append(fasthttp.AppendGzipBytes(nil, p1), fasthttp.AppendGzipBytes(nil, p2)...)
+				case "zstd":
+					comp = append(fasthttp.AppendZstdBytes(nil, p1), fasthttp.AppendZstdBytes(nil, p2)...)
+				}
+				var resp fasthttp.Response
+				resp.SetBodyRaw(comp)
+				resp.Header.SetContentEncoding(coding)
+				var req fasthttp.Request
+				req.SetBodyRaw(comp)
+				req.Header.SetContentEncoding(coding)
+				type res struct {
+					n   int
+					err error
+				}
+				var rs []res
+				add := func(b []byte, err error) { rs = append(rs, res{len(b), err}) }
+				if coding == "gzip" {
+					add(resp.BodyGunzipWithLimit(L))
+					add(req.BodyGunzipWithLimit(L))
+				} else {
+					add(resp.BodyUnzstdWithLimit(L))
+					add(req.BodyUnzstdWithLimit(L))
+				}
+				add(resp.BodyUncompressedWithLimit(L))
+				add(req.BodyUncompressedWithLimit(L))
+				impl := fmt.Sprint(rs)
+				total := first + size
+				return &Case{Impl: impl, Nontrivial: total > L, Tags: []string{"zz-" + coding},
+					Judge: func([]string) Verdict {
+						desc := fmt.Sprintf("%s body of two members/frames inflating to %d + %d bytes, limit %d: (len, err) per helper %s", coding, first, size, L, impl)
+						for _, r := range rs {
+							if r.n > L {
+								return Verdict{VSpec, "limit-helper-over-limit", desc}
+							}
+							if total > L && r.err == nil {
+								return Verdict{VSpec, "limit-helper-over-limit", desc + " (no error although the inflated body exceeds the limit)"}
+							}
+							if total <= L && (r.err != nil || r.n != total) {
+								return Verdict{VSpec, "limit-helper-within-limit-wrong", desc}
+							}
+						}
+						return Ok()
+					}}
 			case "mp":
 				L, size := num(0), num(1)
 				var mb bytes.Buffer
@@ -322,6 +373,10 @@ func init() {
 				default:
 					emit("mp", N(L+300), N(near(L)))
 				}
+			}
+			for i := 0; i < n/20; i++ {
+				L := []int{100, 1000, 1024, 4096}[r.Intn(4)]
+				emit("zz", N(L), N([]int{0, 1, L / 2, L - 1, L, 300}[r.Intn(6)]), N([]int{0, 1, L / 2, L, L + 1, 50 * L}[r.Intn(6)]), B(r.Pick([]string{"gzip", "zstd"})))
 			}
 			for i := 0; i < n/10; i++ {
 				L := []int{10, 100, 1000, 4096}[r.Intn(4)]
